@@ -18,16 +18,26 @@ use crate::{
     val::{MOVal, OVal},
 };
 
-/// Poll a future exactly once; None if it is not ready (the future is dropped = cancelled).
+/// Poll a future as an executor would at this instant: once, and again (a few times at most) only if
+/// the future woke its own waker during the poll (a cooperative yield is not "blocked"). None if it is
+/// still not ready (the future is dropped = cancelled).
 pub fn now<F: Future>(f: F) -> Option<F::Output> {
     let flag = Flag::new();
     let w = flag_waker(&flag);
     let mut cx = Context::from_waker(&w);
-    let f = pin!(f);
-    match f.poll(&mut cx) {
-        Poll::Ready(v) => Some(v),
-        Poll::Pending => None,
+    let mut f = pin!(f);
+    for _ in 0..4 {
+        let before = flag.wakes();
+        match f.as_mut().poll(&mut cx) {
+            Poll::Ready(v) => return Some(v),
+            Poll::Pending => {
+                if flag.wakes() == before {
+                    return None;
+                }
+            }
+        }
     }
+    None
 }
 
 #[derive(Clone, Debug, PartialEq)]
